@@ -26,6 +26,14 @@ CHECKS = {
         note="walk_outcomes assumes the walk draws randomness only via numpy.random.permutation; if that changes the sub-check labels "
              "itself unavailable (no verdict) and the seed-sampled sub-checks remain. Exceptions from dinucleotide_shuffle are permitted "
              "rejections per the statement and are counted."),
+    "C03": dict(
+        technique="property-based testing (Hypothesis): differential against one-example-at-a-time forward passes of an exact-integer model + full (n, batch_size) grid",
+        category="exploration", design_ref="DESIGN.md §3 C03",
+        text="predict is compared exactly (torch.equal) with the concatenation of per-example eval-mode no-grad forward passes for generated "
+             "n in 1..40, batch sizes 1..n+3, 0-3 extra args with pairwise-distinct rows, tensor/tuple/list outputs, Dropout+BatchNorm "
+             "stages handed over in training mode; every forward records (training, grad-enabled); mismatched args must raise; inputs "
+             "compared with clones. The whole (n, b) grid (940 pairs x 2 model kinds) is enumerated in both tiers.",
+        note="BatchNorm uses eps=0 and power-of-four running variances so eval-mode arithmetic is exact for any batching; device is cpu."),
     "C09": dict(
         technique="property-based testing (Hypothesis): differential against explicit per-mutant forward passes of an exact-integer model",
         category="exploration", design_ref="DESIGN.md §3 C09",
